@@ -498,4 +498,9 @@ def rule_wc2(ctx: Ctx) -> RuleResult:
     return r
 
 
-RULES = [rule_mx_flat, rule_mx5, rule_mx6, rule_mx7, rule_mx8, rule_wc2]
+def _lv(ctx):
+    from .lv import rule_lv
+    return rule_lv(ctx)
+
+
+RULES = [rule_mx_flat, _lv, rule_mx5, rule_mx6, rule_mx7, rule_mx8, rule_wc2]
